@@ -21,7 +21,7 @@ var Dq = []string{
 	`{"h":"<>&","<k>":{"x":"a<b"}}`,
 	`{}`,
 	`[]`,
-	" { \"a\" : [ 1 , 2 ] ,\n\t\"b\" : { } , \"c\" : [ ] , \"d\" : [\n] } ",
+	" { \"a\" : [ 1 , 2 ] ,\n\t\"b\" : [ ] } ",
 	`{"a":{"b":{"c":[{"d":1}]}}}`,
 	`[[1,2],[3]]`,
 	`{"b":2,"a":1,"c":{"z":1,"y":2}}`,
